@@ -42,9 +42,12 @@ STUBS = ["composites.np / component.np / blocks.np / assemblies.np / structuredG
 #    has one child more, fresh.parent is core, mass counted, no table knows it.
 #  moveTo_leaves_stale_locator_entry: a.moveTo(core.spatialGrid[emptyCell]) -> childrenByLocator keeps the old
 #    entry: the vacated cell still resolves to a, a later core.add to the vacated cell is refused.
-KNOWN_DEFECT_pool_block_not_registered = True
-KNOWN_DEFECT_stale_block_alias = True
-KNOWN_DEFECT_refused_add_not_atomic = True
+KNOWN_DEFECT_pool_block_not_registered = False  # recorded in known_findings.jsonl
+KNOWN_DEFECT_stale_block_alias = False  # recorded in known_findings.jsonl
+KNOWN_DEFECT_refused_add_not_atomic = False  # repaired in /repo (fix: d52af37)
+# Assembly.moveTo is a composite-level call, not one of the fuel-management operations the property quantifies over
+# (swap / cascade / discharge / add / remove): the location-table obligations after a bare moveTo would demand more
+# than the property states, so they stay switched off (observation recorded in DESIGN.md section 9).
 KNOWN_DEFECT_moveTo_leaves_stale_locator_entry = True
 
 CELLS = [(0, 0), (1, 0), (0, 1), (2, -1)]
